@@ -90,6 +90,7 @@ type Host struct {
 	NoHint  bool       `json:"nohint"`        // answer without hints
 	FetchKO bool       `json:"fetchko"`       // the Fetch call itself fails
 	Ops     []StreamOp `json:"ops,omitempty"` // edits of the fetch stream
+	T       int        `json:"t,omitempty"`   // kind dl: logical time at which the Search answer becomes available (-1 = never)
 }
 
 type Script struct {
@@ -124,6 +125,10 @@ type Script struct {
 	Limit   int       `json:"limit,omitempty"`
 	Erase   bool      `json:"erase,omitempty"`
 	Tag     string    `json:"tag,omitempty"`
+	// kind dl (deadline.go): the request context is cancelled at logical time D (0 = never); Entry = search |
+	// api-search | api-complex | api-agg | api-hist
+	D     int    `json:"d,omitempty"`
+	Entry string `json:"entry,omitempty"`
 }
 
 // one QPR handed to seq.MergeQPRs
@@ -383,6 +388,7 @@ type outcome struct {
 	r        *run
 	weirdErr string
 	unmapped bool
+	dl       *dlState // kind dl: what the stores saw
 }
 
 type gotDoc struct {
@@ -400,12 +406,17 @@ type built struct {
 	hostOf map[uint64]int // source -> host index
 	srcOf  map[int]uint64
 	nhosts int
+	dl     *dlState
 }
 
 func build(sc *Script) *built {
 	r := &run{streams: map[int][]sentDoc{}, fetchIDs: map[ID]int{}}
 	clients := map[string]storeapi.StoreApiClient{}
 	n := 0
+	var dl *dlState
+	if sc.Kind == "dl" {
+		dl = newDlState()
+	}
 	mk := func(tier [][]Host) *stores.Stores {
 		st := &stores.Stores{Shards: [][]string{}}
 		for si := range tier {
@@ -413,6 +424,9 @@ func build(sc *Script) *built {
 			for ri := range tier[si] {
 				h := &tier[si][ri]
 				clients[hostName(n)] = &fakeClient{idx: n, h: h, r: r}
+				if dl != nil {
+					clients[hostName(n)] = dl.wrap(&fakeClient{idx: n, h: h, r: r})
+				}
 				names = append(names, hostName(n))
 				n++
 			}
@@ -436,7 +450,7 @@ func build(sc *Script) *built {
 	}
 	cfg.WriteStores = &stores.Stores{Shards: [][]string{}}
 	si := search.NewIngestor(cfg, clients)
-	b := &built{si: si, r: r, hostOf: map[uint64]int{}, srcOf: map[int]uint64{}, nhosts: n}
+	b := &built{si: si, r: r, hostOf: map[uint64]int{}, srcOf: map[int]uint64{}, nhosts: n, dl: dl}
 	b.srv = proxyapi.VerifC16NewGrpcV1(si, 30*time.Second)
 	for name, s := range si.VerifC16SourceByClient() {
 		i, _ := strconv.Atoi(name[1:])
@@ -481,6 +495,9 @@ func execute(sc *Script) []*outcome {
 			outs = append(outs, runOne(ctx, st, b))
 		}
 		return outs
+	}
+	if sc.Kind == "dl" {
+		return []*outcome{executeDl(sc)}
 	}
 	return []*outcome{runOne(context.Background(), sc, build(sc))}
 }
@@ -533,6 +550,19 @@ func runOne(ctx context.Context, sc *Script, b *built) (o *outcome) {
 			executeAPI(ctx, sc, b, o)
 			return
 		}
+		executeSearch(ctx, sc, b, o)
+	}()
+	select {
+	case <-done:
+	case <-time.After(20 * time.Second):
+		return &outcome{hung: true, r: &run{streams: map[int][]sentDoc{}, fetchIDs: map[ID]int{}}}
+	}
+	return o
+}
+
+// executeSearch drives Ingestor.Search directly
+func executeSearch(ctx context.Context, sc *Script, b *built, o *outcome) {
+	{
 		sr := &search.SearchRequest{Q: []byte("message:x"), Offset: sc.Off, Size: sc.Size, From: 0, To: 1 << 40,
 			ShouldFetch: !sc.NoFetch, Order: seq.DocsOrderDesc, Interval: seq.MID(sc.Itv), Explain: sc.Explain}
 		for i := 0; i < sc.NAggs; i++ {
@@ -575,13 +605,7 @@ func runOne(ctx context.Context, sc *Script, b *built) (o *outcome) {
 		if !sc.NoFetch && len(qpr.IDs) > 0 {
 			pull(o, b, it, len(qpr.IDs))
 		}
-	}()
-	select {
-	case <-done:
-	case <-time.After(20 * time.Second):
-		return &outcome{hung: true, r: &run{streams: map[int][]sentDoc{}, fetchIDs: map[ID]int{}}}
 	}
-	return o
 }
 
 // the merged QPR besides IDs, canonicalised (sorted keys)
@@ -703,7 +727,23 @@ func executeAPI(ctx context.Context, sc *Script, b *built, o *outcome) {
 		docs  []*seqproxyapi.Document
 		hist  *seqproxyapi.Histogram
 	)
-	if sc.API == "search" {
+	if sc.API == "agg" {
+		var resp *seqproxyapi.GetAggregationResponse
+		resp, err = srv.GetAggregation(ctx, &seqproxyapi.GetAggregationRequest{Query: q, Aggs: dlAggQueries(sc.NAggs)})
+		if resp != nil {
+			perr, flag, total = resp.Error, resp.PartialResponse, resp.Total
+		}
+	} else if sc.API == "hist" {
+		req := &seqproxyapi.GetHistogramRequest{Query: q}
+		if sc.Itv > 0 {
+			req.Hist = &seqproxyapi.HistQuery{Interval: fmt.Sprintf("%dms", sc.Itv)}
+		}
+		var resp *seqproxyapi.GetHistogramResponse
+		resp, err = srv.GetHistogram(ctx, req)
+		if resp != nil {
+			perr, flag, total, hist = resp.Error, resp.PartialResponse, resp.Total, resp.Hist
+		}
+	} else if sc.API == "search" {
 		var resp *seqproxyapi.SearchResponse
 		resp, err = srv.Search(ctx, &seqproxyapi.SearchRequest{Query: q, Size: int64(sc.Size), Offset: int64(sc.Off), WithTotal: !sc.NoTotal, Order: order})
 		if resp != nil {
@@ -714,6 +754,7 @@ func executeAPI(ctx context.Context, sc *Script, b *built, o *outcome) {
 		if sc.Itv > 0 {
 			req.Hist = &seqproxyapi.HistQuery{Interval: fmt.Sprintf("%dms", sc.Itv)}
 		}
+		req.Aggs = dlAggQueries(sc.NAggs)
 		var resp *seqproxyapi.ComplexSearchResponse
 		resp, err = srv.ComplexSearch(ctx, req)
 		if resp != nil {
@@ -961,6 +1002,10 @@ func record(w *casefile.Writer, sc *Script, o *outcome, input any, suffix string
 	}
 	if sc.Kind == "merge" {
 		recordMerge(w, sc, o, input)
+		return
+	}
+	if sc.Kind == "dl" {
+		recordDl(w, sc, o, input)
 		return
 	}
 	if sc.Kind == "fetch" && sc.Fds {
@@ -2130,7 +2175,7 @@ func main() {
 		os.Exit(2)
 	}
 	logger.SetLevel(zapcore.FatalLevel)
-	w, err := casefile.New(*out, "C16", "From VLib Require Import CaseLib.\nFrom C16 Require Import Model ModelExt CaseDefs.", 300)
+	w, err := casefile.New(*out, "C16", "From VLib Require Import CaseLib.\nFrom C16 Require Import Model ModelExt ModelDeadline CaseDefs.", 300)
 	if err != nil {
 		panic(err)
 	}
@@ -2180,6 +2225,14 @@ func main() {
 	}
 	for i := 0; i < nHist; i++ {
 		scripts = append(scripts, genHist(r.Fork()))
+	}
+	nDl := 260
+	if *tier == "thorough" {
+		nDl = 4000
+	}
+	scripts = append(scripts, genDlBoundary()...)
+	for i := 0; i < nDl; i++ {
+		scripts = append(scripts, genDl(r.Fork()))
 	}
 	runAll(w, scripts)
 	refuseCases(w, r, 200)
